@@ -31,6 +31,7 @@ type mismatch struct {
 	Got     []string `json:"got"`
 	Pair    pair     `json:"pair"`
 	Err     string   `json:"err,omitempty"`
+	Types   string   `json:"types,omitempty"`
 }
 
 func dialects() []struct {
@@ -51,6 +52,48 @@ func dialects() []struct {
 		{&absmodel.Dialect{Name: "postgres", T1: it("integer"), T2: st("character varying", 255, "character varying(255)"), Comments: true, Schema: "public"}, postgres.DefaultDiff},
 		{&absmodel.Dialect{Name: "sqlite", T1: it("integer"), T2: st("text", 0, "text"), Comments: false, Schema: "main"}, sqlite.DefaultDiff},
 	}
+}
+
+// typeCatalogue: pairwise different column types per dialect (no two entries are aliases of each other); every ordered pair of them is a
+// ChangeType edit of SchemaModel.tla (the model is parametric in its type ids).
+type namedType struct {
+	name string
+	mk   func() *schema.ColumnType
+}
+
+func typeCatalogue(d string) []namedType {
+	var out []namedType
+	parsed := func(parse func(string) (schema.Type, error), raws ...string) {
+		for _, raw := range raws {
+			raw := raw
+			if _, err := parse(raw); err != nil {
+				panic("type catalogue: " + raw + ": " + err.Error())
+			}
+			out = append(out, namedType{raw, func() *schema.ColumnType {
+				t, _ := parse(raw)
+				return &schema.ColumnType{Type: t, Raw: raw}
+			}})
+		}
+	}
+	obj := func(name string, mk func() schema.Type) {
+		out = append(out, namedType{name, func() *schema.ColumnType { return &schema.ColumnType{Type: mk(), Raw: name} }})
+	}
+	switch d {
+	case "mysql":
+		parsed(mysql.ParseType, "int", "int unsigned", "bigint", "smallint", "varchar(10)", "varchar(20)", "char(3)", "text", "longtext", "decimal(10,2)", "decimal(12,2)",
+			"float", "double", "date", "datetime", "datetime(3)", "timestamp", "time", "year", "json", "blob", "binary(3)", "varbinary(10)", "enum('a','b')", "enum('a','c')", "set('a','b')",
+			"bit(3)", "point")
+	case "postgres":
+		parsed(postgres.ParseType, "integer", "bigint", "smallint", "boolean", "text", "character varying(10)", "character varying(20)", "character(3)", "numeric(10,2)", "numeric(12,2)",
+			"real", "double precision", "date", "timestamp(3) without time zone", "timestamp without time zone", "timestamp with time zone", "time without time zone", "uuid", "json", "jsonb", "bytea",
+			"inet", "cidr", "macaddr", "interval", "bit(3)", "bit varying(5)", "money", "xml", "point", "tsvector", "int4range", "integer[]", "text[]")
+		obj("user-defined citext", func() schema.Type { return &postgres.UserDefinedType{T: "citext"} })
+		obj("user-defined hstore", func() schema.Type { return &postgres.UserDefinedType{T: "hstore"} })
+	case "sqlite":
+		// the SQLite differ compares type affinity classes by design (diff.typeChanged): one representative per class
+		parsed(sqlite.ParseType, "integer", "text", "real", "blob", "numeric", "boolean", "date", "json", "uuid")
+	}
+	return out
 }
 
 // skipKinds maps the model's change kinds to the policy's change types: exactly the kinds the CLI's diff.skip block can disable
@@ -78,6 +121,19 @@ func filterSkip(want []string, kinds map[string]bool) []string {
 	return out
 }
 
+// isTypeChangeOnly: the expected diff is one ModifyTable holding one ModifyColumn whose only flag is ChangeType, from T1 to T2
+// (so that binding T1 / T2 to any two different concrete types keeps the expectation).
+func isTypeChangeOnly(p pair) bool {
+	if len(p.Diff) != 1 || p.Diff[0].K != "ModifyTable" || len(p.Diff[0].Ch) != 1 {
+		return false
+	}
+	c := p.Diff[0].Ch[0]
+	if c.K != "ModifyColumn" || len(c.F) != 1 || c.F[0] != "type" {
+		return false
+	}
+	return p.From[p.Diff[0].T].Cols[c.N].Type == "T1" && p.To[p.Diff[0].T].Cols[c.N].Type == "T2"
+}
+
 func main() {
 	skipMode := len(os.Args) > 2 && os.Args[2] == "skip"
 	f, err := os.Open(os.Args[1])
@@ -93,12 +149,16 @@ func main() {
 		samples  []any
 	)
 	ds := dialects()
+	var typePairs []pair
 	for sc.Scan() {
 		var p pair
 		if err := json.Unmarshal(sc.Bytes(), &p); err != nil {
 			panic(err)
 		}
 		n++
+		if len(typePairs) < 2 && isTypeChangeOnly(p) {
+			typePairs = append(typePairs, p)
+		}
 		for _, d := range ds {
 			want := absmodel.ExpectedFor(d.d, p.From, p.To, p.Diff)
 			for _, w := range want {
@@ -184,5 +244,52 @@ func main() {
 			samples = append(samples, map[string]any{"from": p.From, "to": p.To, "expected": absmodel.Expected(ds[0].d, p.Diff)})
 		}
 	}
-	json.NewEncoder(os.Stdout).Encode(map[string]any{"pairs": n, "diffs": diffs, "mismatches": mism, "classes": classes, "samples": samples})
+	ntypes := 0
+	if !skipMode {
+		// type matrix: the exported ChangeType pairs, with the opaque ids T1 / T2 bound to every ordered pair of the dialect's catalogue
+		for _, d := range ds {
+			cat := typeCatalogue(d.d.Name)
+			for _, p := range typePairs {
+				for i, ta := range cat {
+					for j, tb := range cat {
+						if i == j {
+							continue
+						}
+						dd := *d.d
+						dd.T1, dd.T2 = ta.mk, tb.mk
+						want := absmodel.ExpectedFor(&dd, p.From, p.To, p.Diff)
+						from, to := absmodel.Build(&dd, p.From, 0), absmodel.Build(&dd, p.To, 0)
+						diffs++
+						ntypes++
+						var (
+							changes []schema.Change
+							err     error
+							pan     any
+						)
+						func() {
+							defer func() { pan = recover() }()
+							changes, err = d.differ.SchemaDiff(from, to, schema.DiffNormalized())
+						}()
+						got := absmodel.Project(changes)
+						if got == nil {
+							got = []string{}
+						}
+						if err != nil || pan != nil || !reflect.DeepEqual(got, want) {
+							m := mismatch{Dialect: d.d.Name, Mode: "types", Want: want, Got: got, Pair: p, Types: ta.name + " -> " + tb.name}
+							if err != nil {
+								m.Err = err.Error()
+							}
+							if pan != nil {
+								m.Err = fmt.Sprint("panic: ", pan)
+							}
+							if len(mism) < 800 {
+								mism = append(mism, m)
+							}
+						}
+					}
+				}
+			}
+		}
+	}
+	json.NewEncoder(os.Stdout).Encode(map[string]any{"pairs": n, "diffs": diffs, "type_pairs": ntypes, "mismatches": mism, "classes": classes, "samples": samples})
 }
